@@ -14,6 +14,15 @@
 #include "schedule.h"
 #include "tasking_system_init.h"
 
+// Named scheduling points for verification harnesses; no-ops unless
+// RKCOMMON_VERIF is defined
+#ifdef RKCOMMON_VERIF
+extern "C" void vp_point(const char *name);
+#define RKCOMMON_VERIF_POINT(name) vp_point(name)
+#else
+#define RKCOMMON_VERIF_POINT(name) ((void)0)
+#endif
+
 namespace rkcommon {
   namespace tasking {
 
@@ -83,12 +92,15 @@ namespace rkcommon {
             return;
 
           if (l->shouldBeRunning) {
+            RKCOMMON_VERIF_POINT("A:loop after running-flag check");
             l->insideLoopBody = true;
             fcn();
             l->insideLoopBody = false;
+            RKCOMMON_VERIF_POINT("B:loop after body");
           } else {
             std::unique_lock<std::mutex> lock(l->runningMutex);
             l->runningCond.wait(lock, [&] {
+              RKCOMMON_VERIF_POINT("C:loop evaluating wait predicate");
               return l->shouldBeRunning.load() ||
                      !l->threadShouldBeAlive.load();
             });
@@ -134,6 +146,7 @@ namespace rkcommon {
           std::unique_lock<std::mutex> lock(loop->runningMutex);
           loop->shouldBeRunning = true;
         }
+        RKCOMMON_VERIF_POINT("F:start before notify");
         loop->runningCond.notify_one();
       }
     }
@@ -142,6 +155,7 @@ namespace rkcommon {
     {
       if (loop->shouldBeRunning) {
         loop->shouldBeRunning = false;
+        RKCOMMON_VERIF_POINT("G:stop before waiting for the body");
         while (loop->insideLoopBody.load()) {
           std::this_thread::yield();
         }
